@@ -193,8 +193,18 @@ func (j *job) exec(sl *slot) {
 	j.r = scanSafe(scanWith(j.os.o), j.input)
 	j.obs = j.r.canon()
 	vs := oracle(j.os, j.input, j.r)
-	if !j.os.driver {
+	if !j.os.driver && j.os.o.GoCommand {
+		// GoCommand (reachable only through the exported migrate.Scanner API, no driver of this tree sets
+		// it): Pos is off after a GO batch separator (C08_positions_gocommand_refuted). Position/gap
+		// failures of these sets are reported under their own class; a panic or hang stays what it is.
 		j.extra = len(vs) > 0
+		for _, v := range vs {
+			if v[0] == "panic" || v[0] == "hang" {
+				j.viols = append(j.viols, v)
+			} else if len(j.viols) == 0 {
+				j.viols = append(j.viols, [2]string{"gocommand-pos", "(GoCommand option set) " + v[1]})
+			}
+		}
 		return
 	}
 	j.viols = vs
